@@ -23,3 +23,9 @@ Definition needs_grow_N (num shift : N) (count cap : N) : bool :=
 
 Definition needs_grow_nat (num shift : N) (count cap : nat) : bool :=
   needs_grow_N num shift (N.of_nat count) (N.of_nat cap).
+
+(* (n as f32 * c) as usize  for c = num / 2^shift: product rounded to 24 bits, then truncated *)
+Definition f32_mul_trunc_N (num shift n : N) : N :=
+  let m := n * num in
+  let e := N.size m - 24 in
+  (rne_shift m e * 2 ^ e) / 2 ^ shift.
